@@ -1,2 +1,5 @@
 -- root of the library: every property module (and through them the model, specs and lemmas)
+import ScadVerif.Props.C09
+import ScadVerif.Props.C10
 import ScadVerif.Props.C11
+import ScadVerif.Props.C12
